@@ -1,7 +1,7 @@
 """Per-property recipes: which models are checked, which generators run, which family replays
 the scenarios, which trace specification validates the traces and which clauses belong to the
 property."""
-import json, os
+import json, os, re
 import vlib
 from vlib import Infra, log
 
@@ -358,7 +358,7 @@ def c16(run):
     return vlib.finish(run, "model_checking",
                        rule=("Hints.tla derives the select hints twice - path based as the reference engine does, and top-down as the engine's "
                              "plan construction does - and TLC checks for every plan wrap3(wrap2(wrap1(leaf))) over 9 leaves (offset, @ literal, "
-                             "start(), end(), range selectors) and 10 wrappers (function, aggregation by/without, unary minus, parentheses, "
+                             "start(), end(), range selectors) and 13 wrappers (function, histogram_quantile, timestamp, clamp, aggregation by/without, unary minus, parentheses, "
                              "either side of a binary operator, parameterised aggregation, function with scalar argument) that the tuples are "
                              "equal and the hinted range covers every needed sample. The plans (and the general / random scenarios) are "
                              "replayed: the set of selects recorded by the instrumented storage for the engine without optimizers must equal "
@@ -388,7 +388,7 @@ def c10(run):
                              "count->sum, other distributive chains wrapped in coalesce(remote), binary expressions and non-distributive "
                              "aggregations central) over PromQLRef and TLC checks, for every assignment of the series (one ending early, one going "
                              "stale, one with a gap, one starting late) to the engines incl. empty engines and groups split across engines, and "
-                             "every plan of a 21-plan basket, that the rewritten plan denotes the central result at every step. The triples are "
+                             "every plan of a 29-plan basket (incl. nests of equal and different aggregations), that the rewritten plan denotes the central result at every step. The triples are "
                              "replayed through NewDistributedEngine over NewLocalEngine partitions (local queryable = union) against one engine "
                              "over the union, with general and random scenarios under seeded random assignments to 1..4 engines; SessionTrace.tla "
                              "(result independent of the partitioning) is validated by TLC. distinct_nontrivial = distributed executions compared."),
@@ -516,29 +516,32 @@ FAULT_CLAUSES = {
     "C15": {"ErrorSurfaces"},
     "C17": {"QuerierBeforeExec", "QuerierAfterReturn", "QuerierClosedOnce", "DataUnmodified"},
 }
-FAULT_MODES = {"C13": ["panic"], "C14": ["cancel", "block", "cancelcall", "gate"], "C15": ["err"], "C17": ["err", "panic", "cancel", "block"]}
+FAULT_MODES = {"C13": ["panic"], "C14": ["cancel", "block", "cancelcall", "gate"], "C15": ["err", "errdown"], "C17": ["err", "errdown", "panic", "cancel", "block"]}
 
 
 def mc_exec(run):
     """Exec.tla: goroutines / channels / context of the exchange topology; with the repaired Exec (Recheck) every
     property must hold, and the pinned behaviour (no re-check) must violate NoPartialSuccess (non-vacuity)."""
     quick = run.tier == "quick"
-    base = ("SPECIFICATION Spec\nCONSTANTS\n S = %d\n K = %d\n Cap = 2\n Recheck = %s\n Faults = TRUE\n RecvSelectsCtx = %s\n"
+    base = ("SPECIFICATION Spec\nCONSTANTS\n S = %d\n K = %d\n Cap = 2\n Recheck = %s\n Faults = 2\n RecvSelectsCtx = %s\n JoinChecksEndFirst = %s\n"
             "INVARIANTS TypeOK NoPartialSuccess SuccessIsComplete ErrorSurfaces QuerierClosedAtReturn QuerierBalanced FailedLoadNeverSucceeds\n"
             "PROPERTIES ExecReturns GoroutinesExit\n")
-    ok, out, st = vlib.model_check(run, "Exec", base % (2, 2 if quick else 3, "TRUE", "FALSE"), "exec", timeout=1500)
+    ok, out, st = vlib.model_check(run, "Exec", base % (2, 2 if quick else 3, "TRUE", "FALSE", "FALSE"), "exec", timeout=1500)
     if not ok:
         # a model-level counterexample is not a verdict: it has to be reproduced on the real code (gate mode)
         run.notes.append("Exec.tla reports a counterexample on the model of the current code: " + vlib.tlc_errors(out)[:400])
         log("NOTE: Exec.tla violated at the model level (not a verdict by itself)")
-    ok2, out2, st2 = vlib.model_check(run, "Exec", base % (2, 2, "FALSE", "FALSE"), "exec_nocheck", timeout=600)
-    if ok2 or "NoPartialSuccess" not in out2:
-        raise Infra("non-vacuity: Exec.tla without the context re-check should violate NoPartialSuccess")
-    ok3, out3, st3 = vlib.model_check(run, "Exec", base % (2, 2, "TRUE", "TRUE"), "exec_recvctx", timeout=600)
-    if ok3 or "QuerierClosedAtReturn" not in out3:
-        raise Infra("non-vacuity: Exec.tla with a receive that also selects on ctx.Done should violate QuerierClosedAtReturn")
-    log("Exec.tla: %d distinct states (current code: %s); controls: without the re-check NoPartialSuccess is violated, with a "
-        "ctx-selecting receive QuerierClosedAtReturn is violated, as expected" % (st["distinct"], "all properties hold" if ok else "VIOLATED"))
+    # non-vacuity controls: three plausible changes of the code, each must break its clause
+    for (name, consts, clause) in (("exec_nocheck", ("FALSE", "FALSE", "FALSE"), "NoPartialSuccess"),
+                                   ("exec_recvctx", ("TRUE", "TRUE", "FALSE"), "QuerierClosedAtReturn"),
+                                   ("exec_endfirst", ("TRUE", "FALSE", "TRUE"), "ErrorSurfaces")):
+        cfgc = re.sub(r"INVARIANTS [^\n]*\nPROPERTIES [^\n]*\n", "INVARIANTS %s\n" % clause, base % ((2, 2) + consts))
+        okc, outc, stc = vlib.model_check(run, "Exec", cfgc, name, timeout=600)
+        if okc or clause not in outc:
+            raise Infra("non-vacuity: Exec.tla control %s should violate %s" % (name, clause))
+    log("Exec.tla: %d distinct states (current code: %s); controls: without the context re-check NoPartialSuccess is violated, with a "
+        "ctx-selecting receive QuerierClosedAtReturn, with the end-of-stream test before the error channel ErrorSurfaces - as expected"
+        % (st["distinct"], "all properties hold" if ok else "VIOLATED"))
 
 
 def extreme_params(run, binary):
@@ -572,7 +575,7 @@ def fault_check(run, rule_extra, assumptions):
     modes = FAULT_MODES[run.prop]
     for s in scs:
         s["cfg"]["modes"] = modes
-        s["cfg"]["maxk"] = (24 if quick else 400) if len(modes) == 1 else (10 if quick else 150)
+        s["cfg"]["maxk"] = (24 if quick else 400) if len(modes) == 1 else ((16 if quick else 250) if len(modes) == 2 else (10 if quick else 150))
     log("Gen_Fault.tla: %d plan/window/config scenarios, modes %s" % (len(scs), modes))
     chunks = max(1, min(vlib.NCPU // 2, len(scs) // 6))
     traces = vlib.replay(run, binary, "fault", scs, "f", chunks=chunks, j=vlib.NCPU, stall=120)
